@@ -174,9 +174,6 @@ theorem natToDec_digits (n : Nat) : ∀ b ∈ natToDec n, isDigit b = true := by
 theorem natToDec_ne_nil (n : Nat) : natToDec n ≠ [] := by
   rw [natToDec_unfold]; split <;> simp
 
-/-- value of a digit string read left to right from `acc` -/
-def digitsVal (acc : Nat) (bs : Bytes) : Nat := bs.foldl (fun a b => a * 10 + (b.toNat - 48)) acc
-
 theorem digitsVal_natToDec (n : Nat) : digitsVal 0 (natToDec n) = n := by
   induction n using Nat.strongRecOn with
   | _ n ih =>
@@ -287,5 +284,77 @@ theorem listOf_roundtrip {α : Type} (enc : α → Except ArgErr Bytes) (dec : B
           refine ⟨s :: ss, ?_, ?_⟩
           · simpa [listRecv] using h1
           · simp only [mapExcept, hx x (by simp) s hs, h2]
+
+/-! generalised ListOf lemma: the element decoder returns `f x` -/
+theorem listOf_roundtrip_map {α β : Type} (enc : α → Except ArgErr Bytes) (dec : Bytes → Except ArgErr β) (f : α → β)
+    (xs : List α) (w : Bytes) (acc : List Bytes)
+    (hx : ∀ x ∈ xs, ∀ s, enc x = .ok s → dec s = .ok (f x))
+    (h : listToString enc xs = .ok w) :
+    ∃ ss, (loop listRecv acc w).1 = acc ++ ss ∧ mapExcept dec ss = .ok (xs.map f) := by
+  induction xs generalizing w acc with
+  | nil =>
+    simp only [listToString] at h
+    cases h
+    exact ⟨[], by simp [loop_nil], rfl⟩
+  | cons x xs ih =>
+    simp only [listToString] at h
+    split at h
+    · cases h
+    · rename_i s hs
+      split at h
+      · cases h
+      · rename_i hlen
+        split at h
+        · cases h
+        · rename_i w' hw'
+          cases h
+          rw [loop_frame listRecv acc s w' (by omega) (by simp [listRecv]; omega)]
+          obtain ⟨ss, h1, h2⟩ := ih w' (acc ++ [s]) (fun y hy => hx y (by simp [hy])) hw'
+          refine ⟨s :: ss, ?_, ?_⟩
+          · simpa [listRecv] using h1
+          · simp only [mapExcept, hx x (by simp) s hs, h2, List.map_cons]
+
+theorem listOf_roundtrip_generic_map {α β : Type} (enc : α → Except ArgErr Bytes) (dec : Bytes → Except ArgErr β) (f : α → β)
+    (xs : List α) (w : Bytes) (hx : ∀ x ∈ xs, ∀ s, enc x = .ok s → dec s = .ok (f x))
+    (h : listToString enc xs = .ok w) : listFromString dec w = .ok (xs.map f) := by
+  obtain ⟨ss, h1, h2⟩ := listOf_roundtrip_map enc dec f xs w [] hx h
+  simp only [listFromString, splitStrings, h1, List.nil_append, h2]
+
+/-! ### `mapExcept` -/
+
+theorem mapExcept_ok_cons {α β : Type} (f : α → Except ArgErr β) (x : α) (xs : List α) (ys : List β)
+    (h : mapExcept f (x :: xs) = .ok ys) : ∃ y ys', ys = y :: ys' ∧ f x = .ok y ∧ mapExcept f xs = .ok ys' := by
+  simp only [mapExcept] at h
+  split at h
+  · cases h
+  · rename_i y hy
+    split at h
+    · cases h
+    · rename_i ys' hys
+      cases h
+      exact ⟨y, ys', rfl, hy, hys⟩
+
+theorem mapExcept_mem {α β : Type} (f : α → Except ArgErr β) (xs : List α) (ys : List β)
+    (h : mapExcept f xs = .ok ys) : ∀ y ∈ ys, ∃ x ∈ xs, f x = .ok y := by
+  induction xs generalizing ys with
+  | nil => simp only [mapExcept] at h; cases h; simp
+  | cons x xs ih =>
+    obtain ⟨y0, ys', rfl, h1, h2⟩ := mapExcept_ok_cons f x xs ys h
+    intro y hy
+    simp only [List.mem_cons] at hy
+    rcases hy with rfl | hy
+    · exact ⟨x, by simp, h1⟩
+    · obtain ⟨x', hx', hfx⟩ := ih ys' h2 y hy
+      exact ⟨x', by simp [hx'], hfx⟩
+
+theorem mapExcept_roundtrip {ρ σ : Type} (toBox : ρ → Except ArgErr Box) (fromBox : Box → Except ArgErr σ) (f : ρ → σ)
+    (rows : List ρ) (bs : List Box) (h : mapExcept toBox rows = .ok bs)
+    (hx : ∀ r ∈ rows, ∀ b, toBox r = .ok b → fromBox (sortItems b) = .ok (f r)) :
+    mapExcept fromBox (bs.map sortItems) = .ok (rows.map f) := by
+  induction rows generalizing bs with
+  | nil => simp only [mapExcept] at h; cases h; rfl
+  | cons r rs ih =>
+    obtain ⟨b, bs', rfl, h1, h2⟩ := mapExcept_ok_cons toBox r rs bs h
+    simp only [List.map_cons, mapExcept, hx r (by simp) b h1, ih bs' h2 (fun r' hr' => hx r' (by simp [hr']))]
 
 end TwistedProps.C30
